@@ -4,7 +4,8 @@
 // script (stdin):
 //   queue kind=<lane|serial> lanes=<n> alg=<fifo|prio>
 //   job <id> prio=<h|n> dur=<us> adds=<id;id|-> proc=<behaviour|-> exe=<path|-> env=<K=V;K=V|-> inherit=<0|1>
-//       control=<0|1> interrupt=<0|1> wd=<path|->
+//       control=<0|1> interrupt=<0|1> wd=<path|-> fds=<k|-1>
+//       (fds=k: the launch happens while the process has only k free file descriptors left)
 //   submit <id>
 //   cancel jobs=<n>          (cancelAllJobs when the n-th job body has started)
 //   end
@@ -25,6 +26,7 @@
 #include <mutex>
 #include <sstream>
 #include <string>
+#include <sys/resource.h>
 #include <sys/wait.h>
 #include <thread>
 #include <unistd.h>
@@ -64,7 +66,7 @@ static std::string opt(const std::vector<std::string>& t, const std::string& nam
 struct JobSpec : JobDescriptor {
   std::string id, proc, exe, wd;
   bool high = false, inherit = true, control = true, interrupt = true;
-  int dur = 0;
+  int dur = 0, fds = -1;
   std::vector<std::string> adds;
   std::vector<std::pair<std::string, std::string>> env;
   StringRef getOrdinalName() const override { return id; }
@@ -131,6 +133,12 @@ static void body(JobSpec* j, QueueJobContext* ctx) {
     attr.controlEnabled = j->control;
     if (j->wd != "-") attr.workingDir = j->wd;
     std::string id = j->id;
+    std::vector<int> hog;
+    if (j->fds >= 0) {
+      // descriptor exhaustion: take every free descriptor, then give k back
+      for (;;) { int fd = dup(0); if (fd < 0) break; hog.push_back(fd); }
+      for (int i = 0; i < j->fds && !hog.empty(); ++i) { close(hog.back()); hog.pop_back(); }
+    }
     out("launch " + id);
     ProcessCompletionFn done = [id](ProcessResult r) {
       out("completion " + id + " " + std::to_string(int(r.status)) + " " + std::to_string(r.exitCode));
@@ -141,6 +149,7 @@ static void body(JobSpec* j, QueueJobContext* ctx) {
     gQueue->executeProcess(ctx, ArrayRef<StringRef>(argv.data(), argv.size()),
                            ArrayRef<std::pair<StringRef, StringRef>>(env.data(), env.size()), attr,
                            llvm::Optional<ProcessCompletionFn>(done), nullptr);
+    for (int fd : hog) close(fd);
   }
   out("job-end " + j->id);
   ++gBodiesDone;
@@ -180,6 +189,12 @@ int main(int argc, char** argv) {
       j->inherit = opt(t, "inherit", "1") == "1";
       j->control = opt(t, "control", "1") == "1";
       j->interrupt = opt(t, "interrupt", "1") == "1";
+      j->fds = atoi(opt(t, "fds", "-1").c_str());
+      if (j->fds >= 0) {
+        struct rlimit rl;
+        getrlimit(RLIMIT_NOFILE, &rl);
+        if (rl.rlim_cur > 64) { rl.rlim_cur = 64; setrlimit(RLIMIT_NOFILE, &rl); }
+      }
       std::string env = opt(t, "env", "-");
       if (env != "-")
         for (auto& kv : split(env, ';')) {
